@@ -166,6 +166,11 @@ class SimOS:
                 self.produced_errors.append(('lockf', pid, errno.EDEADLK))
                 self.k.log('lockf.edeadlk', pid, fd, mode)
                 raise OSError(errno.EDEADLK, 'Resource deadlock avoided')
+            if self.faults is not None and getattr(self.faults, 'interrupt', None) is not None and \
+                    self.faults.interrupt(self.k):
+                self._count('fault.interrupt')
+                self.k.log('fault', 'interrupt')
+                raise KeyboardInterrupt()
             waits = self.lock_waits.setdefault(pid, [])
             entry = (inode, mode)
             waits.append(entry)
